@@ -692,6 +692,9 @@ pub fn extended_structures(cfg: &CfgSpec) -> Vec<Structure> {
         add(&format!("sub{n}+pend"), shape, vec![], true);
     }
     add("rec+rec+pend", vec![bs(St::Received, &[0, 1], 0, 0), bs(St::Received, &[0], 1, 0), bs(St::Pending, &[1], 0, 0)], vec![], true);
+    // batches are received in any order (the operator names the batch): an older batch still unbonding behind a finished one
+    add("sub+rec+pend", vec![bs(St::Submitted, &[0, 1], 0, 0), bs(St::Received, &[1], 0, 0), bs(St::Pending, &[0], 0, 1)], vec![], true);
+    add("sub+rec+sub+pend", vec![bs(St::Submitted, &[0], 0, 1), bs(St::Received, &[0, 1], 1, 0), bs(St::Submitted, &[2], 0, 0), bs(St::Pending, &[], 0, -1)], vec![], true);
     add("sub+sub+pend", vec![bs(St::Submitted, &[0], 0, -1), bs(St::Submitted, &[0, 1], 0, 1), bs(St::Pending, &[0, 1], 0, -1)], vec![], true);
     add("4batches", vec![bs(St::Received, &[0], 1, 0), bs(St::Received, &[1, 2], 0, 0), bs(St::Submitted, &[0, 1, 2], 0, 0), bs(St::Pending, &[2], 0, 0)], vec![], true);
     add(
